@@ -89,6 +89,13 @@ def corpus():
     cs.append({"calls": [["ncg", tri3[0], tri3[1], [1, 2], 0, k] for k in (1, 0, 2, 3, 4, 1)] +
                         [["ncg", tri3[0], tri3[1], [1, 2, 3], 0, k] for k in (0, 1, 2)] +
                         [["ncg", tri3[0], tri3[1], [], 5, 0], ["ncg", tri3[0], tri3[1], [1], 0, -1]]})
+    sq = [[0, 1], [1, 2], [2, 3], [0, 3]]
+    cs.append({"calls": [["ncg", [0, 1, 2, 3], sq, [1, 2, 3], 0, 1, "g"], ["ncg", [0, 1, 2, 3], sq, [1, 2, 3], 0, 2, "g"],
+                         ["ncg", [0, 1, 2, 3], sq + [[0, 2]], [1, 2, 3], 0, 1, "g"],
+                         ["ncg", [0, 1, 2, 3], sq + [[0, 2]], [1, 2, 3], 0, 2, "g"],
+                         ["ncg", [0, 1, 2, 3, 7], sq + [[0, 2], [7, 3]], [1, 2, 3, 7], 0, 2, "g"],
+                         ["ncg", [0, 1, 2, 3], sq, [1, 2, 3], 0, 1, "g"], ["ncg", [0, 1, 2], [[0, 1], [1, 2]], [1, 2], 0, 0, "g"],
+                         ["ncg", [0, 1, 2], [[0, 1], [1, 2]], [1, 2], 0, 1, "g"]]})
     cs.append({"calls": [_clique_call(t) for t in (2, 3, 4)] + [["cycle", n, X(2), X(1)] for n in (3, 4, 5)]})
     cs.append({"calls": [_clique_call(3, [X(2), X(2)]), _clique_call(4, [X(2), CONST(1), CONST(0)]),
                          _clique_call(3, [X(2), X(3)], CONST(1)), ["cycle", 3, CONST(1), X(1)],
@@ -133,6 +140,51 @@ def _ncg_case(rng, emax=10):
         if rng.random() < 0.3:
             ks.append(rng.choice(ks))
         calls += [["ncg", nodes, edges, ak, i, k] for k in ks]
+    return {"calls": calls}
+
+
+def _ncg_history_case(rng, emax=9):
+    """one graph OBJECT (7th field = object id) that the caller keeps editing between calls: edges / vertices
+    added and removed in place, the same (ak, i, k) asked before and after each edit, ak list object reused"""
+    nodes, edges = _rand_graph(rng, 6, emax - 2)
+    nodes, edges = list(nodes), [list(e) for e in edges]
+    calls = []
+    ak = [v for v in nodes if rng.random() < 0.85]
+    i = rng.choice(nodes)
+    for _step in range(rng.randint(3, 5)):
+        ne = _induced_count(nodes, edges, ak, i)
+        if ne <= emax:
+            ks = rng.sample(range(0, ne + 2), min(ne + 2, rng.randint(2, 4)))
+            for k in ks + ks[:1]:
+                calls.append(["ncg", list(nodes), [list(e) for e in edges], list(ak), i, k, "g0"])
+        op = rng.choice(["add_edge", "add_edge", "del_edge", "del_edge", "add_node", "del_node", "ak", "focal"])
+        present = {(min(a, b), max(a, b)) for a, b in edges}
+        if op == "add_edge":
+            cand = [[a, b] for ai, a in enumerate(nodes) for b in nodes[ai + 1:]
+                    if (min(a, b), max(a, b)) not in present]
+            if cand:
+                edges.append(rng.choice(cand))
+        elif op == "del_edge" and edges:
+            edges.pop(rng.randrange(len(edges)))
+        elif op == "add_node":
+            new = [v for v in range(10) if v not in nodes]
+            if new and len(nodes) < 7:
+                v = rng.choice(new)
+                for w in rng.sample(nodes, min(len(nodes), rng.randint(0, 2))):
+                    edges.append([v, w])
+                nodes.append(v)
+                if rng.random() < 0.7:
+                    ak.append(v)
+        elif op == "del_node" and len(nodes) > 2:
+            v = rng.choice([x for x in nodes if x != i] or nodes)
+            nodes.remove(v)
+            edges = [e for e in edges if v not in e]
+            if v == i:
+                i = nodes[0]
+        elif op == "ak":
+            ak = [v for v in nodes if rng.random() < 0.7]
+        elif op == "focal":
+            i = rng.choice(nodes)
     return {"calls": calls}
 
 
@@ -185,6 +237,9 @@ def generate(rng, tier):
             yield {"calls": calls}
     for _ in range(400 if thorough else 70):
         yield _ncg_case(rng, 11 if thorough else 9)
+    # histories on ONE graph object edited in place between calls (stale caches, damaged inputs)
+    for _ in range(150 if thorough else 30):
+        yield _ncg_history_case(rng, 10 if thorough else 9)
     # ---- clique equation
     for tau in range(0, 7):
         yield {"calls": [_clique_call(tau)]}
@@ -237,6 +292,30 @@ def _as_poly_obs(o):
     return o
 
 
+def _sync_graph(G, nodes, edges):
+    """edit the graph OBJECT in place until it has exactly these nodes / edges (a caller growing and shrinking
+    its substrate between queries); nodes, edges and the graph carry attribute data"""
+    want_n = set(nodes)
+    for v in [v for v in G.nodes() if v not in want_n]:
+        G.remove_node(v)
+    for v in nodes:
+        if v not in G:
+            G.add_node(v, label="v%d" % v, weight=v * 0.5)
+    want_e = {(min(a, b), max(a, b)) for a, b in edges}
+    for a, b in [e for e in G.edges()]:
+        if (min(a, b), max(a, b)) not in want_e:
+            G.remove_edge(a, b)
+    for a, b in edges:
+        if not G.has_edge(a, b):
+            G.add_edge(a, b, motif_id=100 + 10 * a + b, topology="t%d" % ((a + b) % 3))
+
+
+def _snapshot(G, ak):
+    import copy
+    return copy.deepcopy((list(G.nodes(data=True)), list(G.edges(data=True)), dict(G.graph),
+                          {v: list(G.adj[v]) for v in G.nodes()}, list(ak)))
+
+
 def impl(case):
     import networkx as nx
     import gcmpy.message_passing.number_connected_graphs as ncgmod
@@ -247,6 +326,7 @@ def impl(case):
         if callable(getattr(f, "cache_clear", None)):
             f.cache_clear()
     graphs = {}
+    hs_obj = []          # ONE list object for the Hs argument of every clique call of the case
     out = []
     for call in case["calls"]:
         kind = call[0]
@@ -256,18 +336,24 @@ def impl(case):
             elif kind == "QQ":
                 r = _canon_value(ncgmod.QQ(call[1], call[2]))
             elif kind == "ncg":
-                key = json.dumps([call[1], call[2]])
+                key = call[6] if len(call) > 6 else json.dumps([call[1], call[2]])
                 if key not in graphs:
-                    G = nx.Graph()
-                    G.add_nodes_from(call[1])
-                    G.add_edges_from([tuple(e) for e in call[2]])
-                    graphs[key] = G
-                G = graphs[key]
-                r = _canon_value(ncgmod.number_of_connected_graphs(G, list(call[3]), call[4], call[5]))
+                    G = nx.Graph(name="substrate", tag=[1, 2])
+                    graphs[key] = (G, [])
+                G, ak_obj = graphs[key]
+                _sync_graph(G, call[1], call[2])
+                ak_obj[:] = list(call[3])
+                before = _snapshot(G, ak_obj)
+                r = _canon_value(ncgmod.number_of_connected_graphs(G, ak_obj, call[4], call[5]))
+                if _snapshot(G, ak_obj) != before:
+                    r = r + ["input-changed"]
             elif kind == "clique":
                 phi = Poly.from_monos(call[2])
-                hs = [Poly.from_monos(h) for h in call[3]]
-                r = _as_poly_obs(_canon_value(clique_equation(call[1], phi, hs)))
+                hs_obj[:] = [Poly.from_monos(h) for h in call[3]]
+                before = list(hs_obj)
+                r = _as_poly_obs(_canon_value(clique_equation(call[1], phi, hs_obj)))
+                if len(hs_obj) != len(before) or any(a is not b for a, b in zip(hs_obj, before)):
+                    r = r + ["input-changed"]
             elif kind == "cycle":
                 r = _as_poly_obs(_canon_value(chordless_cycle_equation(call[1], Poly.from_monos(call[2]),
                                                                        Poly.from_monos(call[3]))))
@@ -312,11 +398,15 @@ def _plan(case):
     for c in calls:
         if _in_table(c):
             continue
-        k = json.dumps(c)
+        k = _mkey(c)
         if k not in uniq:
             uniq[k] = len(order)
             order.append(_model_tree(c))
     return tabn, uniq, order
+
+
+def _mkey(c):
+    return json.dumps(c[:6] if c[0] == "ncg" else c)
 
 
 def model_calls(case, impl_obs):
@@ -350,13 +440,14 @@ def model_obs(case, raws):
         if _in_table(c):
             out.append(["v", table[c[1]][c[2]]])
         else:
-            out.append(_dec_model(c, raws[pos + uniq[json.dumps(c)]]))
+            out.append(_dec_model(c, raws[pos + uniq[_mkey(c)]]))
     return out
 
 
 def _show(call):
     if call[0] == "ncg":
-        return "number_of_connected_graphs(nodes=%s, edges=%s, ak=%s, i=%s, k=%s)" % tuple(call[1:])
+        return ("number_of_connected_graphs(nodes=%s, edges=%s, ak=%s, i=%s, k=%s)" % tuple(call[1:6])
+                + (" [same graph object %r, edited in place]" % call[6] if len(call) > 6 else ""))
     if call[0] == "clique":
         return "clique_equation(tau=%s, phi=%s, Hs=%s)" % tuple(call[1:])
     if call[0] == "cycle":
@@ -452,6 +543,9 @@ def check_verdict(case, impl_obs, raws):
             continue
         if o[0] == "e":
             return f"call #{j} {_show(c)} raised {o[1]} on an input the property covers"
+        if o[-1] == "input-changed":
+            return (f"call #{j} {_show(c)} modified its caller's arguments (graph nodes / edges / attribute data / "
+                    f"adjacency order, or the ak / Hs list): the counter and the equations are pure queries")
         if o[0] not in ("v", "p") or (c[0] in ("clique", "cycle")) != (o[0] == "p"):
             return f"call #{j} {_show(c)} returned {str(o)[:200]}, which is not {WHAT[c[0]]}"
         t = _check_tree(c, o, bool(case.get("deep")))
